@@ -9,3 +9,8 @@ def run(ctx):
     svcommon.run(ctx, "C06")
     if not ctx.replay:
         restsess.run_property(ctx)
+
+
+def run(ctx, _inner=run):     # + T5-race (lib/racetie.py): data-race freedom, the assumption under every interleaving model; also re-runs its replay files
+    from lib import racetie
+    return racetie.stage(ctx, _inner, ["server", "server/session", "server/session/store"])
